@@ -16,6 +16,7 @@ import (
 	"verifharness/rig"
 
 	"github.com/ipfs/ipfs-cluster/api"
+	"github.com/ipfs/ipfs-cluster/pintracker/optracker"
 	"github.com/ipfs/ipfs-cluster/pintracker/stateless"
 	"github.com/ipfs/ipfs-cluster/state"
 	"github.com/ipfs/ipfs-cluster/state/dsstate"
@@ -59,6 +60,7 @@ type script struct {
 	Cids  []string `json:"cids"`
 	Steps []step   `json:"steps"`
 	Tags  []string `json:"tags"`
+	Gated bool     `json:"gated"` // worker steps after a call returned are scheduled by the script (verifGate hooks)
 }
 
 type filterObs struct {
@@ -98,10 +100,86 @@ type env struct {
 	cids    []string
 	remoteW sync.WaitGroup
 	ipfs0   map[string]string
+
+	gmu     sync.Mutex
+	gated   bool
+	waiting map[string][]chan struct{} // "point|cid|type" -> workers held at that gate
+}
+
+// gate registry: the hook is package-global in the repository, scripts run in parallel with disjoint CIDs
+var gateEnvs sync.Map // concrete cid string -> *env
+
+func gateFn(point string, op *optracker.Operation) {
+	v, ok := gateEnvs.Load(op.Cid().String())
+	if !ok {
+		return
+	}
+	e := v.(*env)
+	typ := "pin"
+	if op.Type() != optracker.OperationPin {
+		typ = "unpin"
+	}
+	e.gmu.Lock()
+	if !e.gated {
+		e.gmu.Unlock()
+		return
+	}
+	key := point + "|" + e.names.CidName(op.Cid()) + "|" + typ
+	ch := make(chan struct{})
+	e.waiting[key] = append(e.waiting[key], ch)
+	e.gmu.Unlock()
+	select {
+	case <-ch:
+	case <-time.After(30 * time.Second):
+	}
+}
+
+// releaseGate lets the oldest worker held at (point, cid, type) continue.
+func (e *env) releaseGate(point, cidName, typ string) error {
+	key := point + "|" + cidName + "|" + typ
+	deadline := time.Now().Add(2 * time.Second)
+	for {
+		e.gmu.Lock()
+		if l := e.waiting[key]; len(l) > 0 {
+			close(l[0])
+			e.waiting[key] = l[1:]
+			e.gmu.Unlock()
+			return nil
+		}
+		e.gmu.Unlock()
+		if time.Now().After(deadline) {
+			return fmt.Errorf("no worker held at gate %s", key)
+		}
+		time.Sleep(time.Millisecond)
+	}
+}
+
+func (e *env) heldAtGates() int {
+	e.gmu.Lock()
+	defer e.gmu.Unlock()
+	n := 0
+	for _, l := range e.waiting {
+		n += len(l)
+	}
+	return n
+}
+
+// ungate switches the gates off and releases everybody.
+func (e *env) ungate() {
+	e.gmu.Lock()
+	e.gated = false
+	for k, l := range e.waiting {
+		for _, ch := range l {
+			close(ch)
+		}
+		delete(e.waiting, k)
+	}
+	e.gmu.Unlock()
 }
 
 func newEnv(sc *script, seed int64) (*env, error) {
-	e := &env{names: hx.NewNames(seed), kinds: map[string]string{}, rng: rand.New(rand.NewSource(seed)), cids: sc.Cids}
+	e := &env{names: hx.NewNames(seed), kinds: map[string]string{}, rng: rand.New(rand.NewSource(seed)), cids: sc.Cids,
+		gated: sc.Gated, waiting: map[string][]chan struct{}{}}
 	e.self = e.names.Peer("self")
 	e.other = e.names.Peer("other")
 	store := dssync.MutexWrap(ds.NewMapDatastore())
@@ -112,7 +190,7 @@ func newEnv(sc *script, seed int64) (*env, error) {
 	e.st = st
 	for _, c := range sc.Cids {
 		e.kinds[c] = "none"
-		e.names.Cid(c)
+		gateEnvs.Store(e.names.Cid(c).String(), e)
 	}
 	e.daemon = NewDaemon(e.names.CidName, e.names.Cid)
 	e.daemon.FailSalt = seed
@@ -130,6 +208,10 @@ func newEnv(sc *script, seed int64) (*env, error) {
 }
 
 func (e *env) close() {
+	e.ungate()
+	for _, c := range e.cids {
+		gateEnvs.Delete(e.names.Cid(c).String())
+	}
 	// fail whatever is still pending so that workers and Track(remote) calls return
 	_, pend, appl := e.daemon.Snapshot()
 	for _, c := range pend {
@@ -239,6 +321,10 @@ func (e *env) do(a act) (string, error) {
 			return "", fmt.Errorf("no pending %s call for %s to fail", a.Op, a.Cid)
 		}
 		return "", nil
+	case "HandleErr", "Finish":
+		return "", e.releaseGate("returned", a.Cid, callKind(a.Op))
+	case "Clean":
+		return "", e.releaseGate("clean", a.Cid, callKind(a.Op))
 	}
 	return "", fmt.Errorf("unknown action %q", a.Name)
 }
@@ -432,14 +518,20 @@ func runScript(sc *script, seed int64, out chan<- *obsRec) (matched bool, infra 
 		} else {
 			o.Match = true
 		}
-		if res != "" && s.Res != res && s.Act.Name != "Apply" && s.Act.Name != "Return" && s.Act.Name != "Fail" {
+		if res != "" && s.Res != res && s.Res != "" {
 			if o.Match {
 				o.Why = "result"
 			}
 			o.Match = false
 		}
 		o.Script, o.I, o.Act, o.Res, o.ExpRes, o.Healthy = sc.ID, i, s.Act, res, s.Res, s.Healthy
-		o.Quiescent = len(o.Pending) == 0 && len(o.Applied) == 0
+		// quiescent: nothing queued, no worker busy, no call in flight. When the real projection equals the
+		// predicted one the specification knows exactly; otherwise: settled, no call in flight and no worker
+		// held at a gate.
+		o.Quiescent = len(o.Pending) == 0 && len(o.Applied) == 0 && e.heldAtGates() == 0
+		if o.Match {
+			o.Quiescent = s.Proj.Quiescent
+		}
 		if !o.Match {
 			// the spec's notion of a healthy recover round no longer applies
 			o.Healthy = false
@@ -461,6 +553,7 @@ func runScript(sc *script, seed int64, out chan<- *obsRec) (matched bool, infra 
 	// Epilogue, independent of the specification's transcription: let every in-flight call
 	// succeed, run recover rounds with the daemon healthy until one succeeds, let it finish.
 	// The statement: "after a recover round with IPFS healthy the daemon matches for every CID".
+	e.ungate()
 	e.daemon.SetFree()
 	e.waitStable(60*time.Millisecond, 3*time.Second)
 	rounds := 0
@@ -490,6 +583,7 @@ func runScript(sc *script, seed int64, out chan<- *obsRec) (matched bool, infra 
 
 func TestDriver(t *testing.T) {
 	rig.Quiet()
+	stateless.VerifGate = gateFn
 	res := hx.NewResult()
 	defer res.Write()
 	raw, err := hx.LoadCases()
